@@ -123,11 +123,14 @@ def dnaU (s : Str) (ty : String) : Bool := ty == "DNA" && (upper s).contains 'U'
   `partition alpha n ty circ ds` : Hash of every word of length n over alpha (harness op `hashall`); the partition by
                                hash must coincide with the partition into molecules computed by BRUTE FORCE (enumerated orbits under
                                rotation if circular and strand exchange if double-stranded): same hash => same molecule, and every
-                               member of a word's orbit has the word's hash -/
+                               member of a word's orbit has the word's hash
+  `ureading w1 w2 ...`       : DNA words containing U, each hashed under all four flag pairs in ONE request; all replies must fit one
+                               and the same reading of U under DNA (model / rejected / U read as T) -/
 def render (f : List String) : List String :=
   match f with
   | ["form", s, ty, circ, ds] => ["hash", s, ty, circ, ds]
   | ["partition", alpha, n, ty, circ, ds] => ["hashall", alpha, n, ty, circ, ds]
+  | "ureading" :: ws => "hashflags" :: "DNA" :: ws
   | _ => ["bad"]
 
 def judge (f out : List String) : Verdict :=
@@ -151,7 +154,12 @@ def judge (f out : List String) : Verdict :=
     -- its quantifier names U only under RNA), or it is hashed in the v1 form of the sequence with U read as T (as under
     -- RNA).  Both satisfy the form / rejection clauses, so the judge passes and the difference from the model is DRIFT.
     let repaired := acc && dnaU cs ty && o != m &&
-      (o == ["err"] || (noStrand && j) || o == ["ok", specHash (foldU (upper cs)) ty (C04.b circ) (C04.b ds)])
+      (o == ["err"] ||
+       (if noStrand then
+          -- a `Z` in a double-stranded word: the property defines no other strand, so the value is tied to the MODEL
+          -- (regenerated complement table) under the repaired reading — not "any digest"
+          o == C04.outStr (hash Blake3.sum256 (foldU (upper cs)) ty (C04.b circ) (C04.b ds))
+        else o == ["ok", specHash (foldU (upper cs)) ty (C04.b circ) (C04.b ds)]))
     let j := j || repaired
     { corr := o == m || repaired, judge := some j,
       cls := (if acc then (if cs.length < 2 then "triv:" else "") ++ "form/" ++ specTag ty (C04.b circ) (C04.b ds) ++
@@ -190,6 +198,8 @@ def judge (f out : List String) : Verdict :=
       -- the difference from the model on the words containing U is drift.
       let hasU := ty == "DNA" && (upper alpha.toList).contains 'U'
       let okB := hasU && !ok && !anyErr &&
+        (ws.zip hs).all (fun (w, h) => !(upper w).contains 'U' ||
+          C04.outStr (hash Blake3.sum256 (foldU (upper w)) ty c d) == ["ok", h]) &&
         (partitionCheck ((nws.zip hs).filterMap fun (w, h) => let w' := foldU w; if inStrand w' then some (w', h) else none) c d).ok
       let okC := hasU && !ok && anyErr &&
         (nws.zip hs).all (fun (w, h) => (h == "err") == w.contains 'U') &&
@@ -212,6 +222,39 @@ def judge (f out : List String) : Verdict :=
             s!"separation failures (same hash, not the same molecule): {sepFails.length}, outside C05-dna-u-strand: {sepNew.length} e.g. {((sepNew ++ sepKnown).take 3).map show2}; " ++
             s!"completeness failures (same molecule, different hash): {compFails.length}, outside C05-dna-u-strand: {compNew.length} e.g. {((compNew ++ compKnown).take 3).map show2}" }
     | _ => { corr := false, judge := some false, cls := "partition", detail := "bad reply" }
+  | "ureading" :: wsS =>
+    -- ONE READING PER RUN.  DNA words containing U, each hashed under all four (topology, strandedness) pairs in one
+    -- request.  Every reply must fit the SAME reading of U under DNA: (M) the model's — U a letter of its own (the
+    -- recorded defect included); (R) rejected; (F) U read as T.  A reply may fit several readings (they can coincide);
+    -- the case passes iff one reading fits ALL replies.  A change that folds / rejects U only for some topology,
+    -- strandedness or length is a mixed reading: FAIL.
+    let ws := wsS.map String.toList
+    let flags := [(true, true), (true, false), (false, true), (false, false)]
+    let calls := ws.flatMap fun w => flags.map fun (c, d) => (w, c, d)
+    match out with
+    | "ok" :: hs =>
+      if hs.length != calls.length then { corr := false, judge := some false, cls := "ureading", detail := "count mismatch" } else
+      let inDom := ws.all fun w => C04.accepted w "DNA" true && (upper w).contains 'U'
+      let fits := (calls.zip hs).map fun ((w, c, d), h) =>
+        let o := if h == "err" then ["err"] else ["ok", h]
+        let u := upper w
+        let noStrand := d && strandUndefined u
+        let mdl := fun (s : Str) => C04.outStr (hash Blake3.sum256 s "DNA" c d)
+        let fitM := if noStrand then o == mdl w else o == ["ok", specHash w "DNA" c d]
+        let fitF := if noStrand then o == mdl (foldU u) else o == ["ok", specHash (foldU u) "DNA" c d]
+        (fitM, o == ["err"], fitF, o == mdl w)
+      let allM := fits.all (·.1); let allR := fits.all (·.2.1); let allF := fits.all (·.2.2.1)
+      let same := fits.all (·.2.2.2)
+      let j := allM || allR || allF
+      let repaired := j && !same
+      { corr := same || repaired, judge := if inDom then some j else none,
+        cls := "ureading/" ++ (if allM then "model" else if allR then "rejected" else if allF then "folded" else "MIXED") ++
+               (if repaired then "/kf-repaired" else ""),
+        detail := if j then "" else
+          "no single reading of U under DNA fits all replies; per call (word,circular,ds: fits model/rejected/folded): " ++
+          String.intercalate " " ((calls.zip fits).map fun ((w, c, d), (m, r, f, _)) =>
+            String.ofList w ++ "," ++ boolStr c ++ "," ++ boolStr d ++ ":" ++ (if m then "M" else "") ++ (if r then "R" else "") ++ (if f then "F" else "") ++ (if !(m || r || f) then "none" else "")) }
+    | _ => { corr := false, judge := some false, cls := "ureading", detail := "bad reply" }
   | _ => { corr := false, judge := none, cls := "bad-case" }
 
 def driver : PropDriver := { render, judge }
